@@ -5,6 +5,7 @@ from .coo_utils import (
     em_update_matrix,
     coo_sum_duplicates,
     merge_all_sum_duplicates,
+    COO_MIN_SIZE,
 )
 from .base_cooccurrence_vectorizer import BaseCooccurrenceVectorizer
 import numpy as np
@@ -459,6 +460,10 @@ class MultiSetCooccurrenceVectorizer(BaseCooccurrenceVectorizer):
             self._coo_sizes = np.array(coo_sizes * average_window, dtype=np.int64)
 
         self._coo_sizes = np.divmod(self._coo_sizes, self.n_threads)[0]
+        # coo_append only grows a nearly full buffer when it is at least 95% full
+        # *after* compaction, which integer rounding makes unreachable for tiny
+        # buffers (and a zero-length buffer cannot be appended to at all).
+        self._coo_sizes = np.maximum(self._coo_sizes, COO_MIN_SIZE)
 
     def _em_cooccurrence_iteration(self, token_sequences, cooccurrence_matrix):
         # call the numba function to return the new matrix.data
